@@ -162,8 +162,13 @@ def set_objective(
     """
     interface = model.problem
     reverse_value = model.solver.objective.expression
+    # The restored objective keeps the name of the current one: constraints such as
+    # "fixed_objective_<name>" are looked up by it.
     reverse_value = interface.Objective(
-        reverse_value, direction=model.solver.objective.direction, sloppy=True
+        reverse_value,
+        direction=model.solver.objective.direction,
+        sloppy=True,
+        name=model.solver.objective.name,
     )
 
     if isinstance(value, dict):
